@@ -48,6 +48,12 @@ void writer_thread(void *arg) {
       case O_WRITE: {
         int bi = -1;
         for (size_t i = 0; i < R.batches.size(); i++) if (R.batches[i].opidx == oi) bi = (int)i;
+        if (bi < 0) { // an empty batch: legal, logged as a 12-byte record, changes nothing
+          int rc = db_write(R.db, o.ups, o.sync);
+          if (rc != LDB_OK) violation("C03", "write_failed", "write of an empty batch returned %s in a fault-free run", rcname(rc));
+          probe("empty_batches");
+          break;
+        }
         BatchRec &b = R.batches[bi];
         b.inv_j = R.journal.e.size();
         b.rc = db_write(R.db, b.ups, b.sync);
@@ -470,6 +476,7 @@ Plan gen_crash(uint64_t seed, const string &prop) {
     } else if (c < 84) o.kind = O_FLUSH, o.tid = 0;
     else if (c < 91) { o.kind = O_COMPACT_RANGE; o.a = (int)r.below(r.chance(0.3) ? 6 : 3); o.tid = 0; }
     else if (c < 93) { o.kind = O_COMPACT; o.tid = 0; }
+    else if (c == 97 || c == 98) { o.kind = O_WRITE; o.sync = r.chance(0.3); } // empty batch
     else if (c < 97 && nthreads == 1) { o.kind = O_REOPEN; o.tid = 0; if (r.chance(0.5)) { Config n = random_config(r); n.cmp = p.cfg.cmp; n.rlimit = p.cfg.rlimit; o.s = n.str(); } }
     else { o.kind = O_GET; char kb[48]; snprintf(kb, sizeof kb, "w%d/k%03d", o.tid, (int)r.below(nkeys)); o.key = kb; }
     p.ops.push_back(o);
